@@ -2,6 +2,7 @@
    Models: Decoders/Wagner.v, Decoders/BP.v; proofs: WagnerFacts.v, BPFacts.v, BPMinSum.v. *)
 From Coq Require Import List Bool Arith QArith.
 From KV Require Import Codes.PolarSC Decoders.Wagner Decoders.WagnerFacts Decoders.BP Decoders.BPFacts Decoders.BPMinSum.
+From KV Require Decoders.BPTanhR.
 Import ListNotations.
 
 (* Wagner: for EVERY non-empty real input (ties included) the decoded word has even parity and no even-parity word
@@ -35,3 +36,10 @@ Print Assumptions C10_minsum_update_sign_consistent.
 Theorem C10_minsum_homogeneous_parts : forall a x, 0 < a -> BP.qabs (a * x) == a * BP.qabs x /\ BP.qsgn (a * x) == BP.qsgn x.
 Proof. intros. split; [now apply qabs_scale|now apply qsgn_scale]. Qed.
 Print Assumptions C10_minsum_homogeneous_parts.
+
+(* the exact sum-product check update 2 atanh (prod tanh (l_i / 2)) over the reals is sign consistent as well (Coq Reals):
+   non-zero incoming messages that carry the signs of their bits give a non-zero outgoing message with the sign of the parity *)
+Theorem C10_sum_product_update_sign_consistent : forall (l : list Rdefinitions.R) bits, l <> [] -> Forall2 BPTanhR.agreesR l bits ->
+  BPTanhR.agreesR (BPTanhR.phi_tanh l) (BPTanhR.parityb bits).
+Proof. exact BPTanhR.phi_tanh_consistent. Qed.
+Print Assumptions C10_sum_product_update_sign_consistent.
